@@ -219,7 +219,7 @@ def asAtomVal : SExp → Option Atom
   | list [atom "bool", b] => do pure (.bool (← b.asBool))
   | list [atom "enum", t] => do pure (.enum (← asText t))
   | list [atom "rule", r] => do pure (.rule (← asRule r))
-  | list [atom "opaque", atom w] => some (.opaque w)
+  | list [atom "opaque", atom w] => some (.other w)
   | _ => none
 
 open Op.PyRepr in
@@ -240,7 +240,7 @@ def ofAtomVal : Atom → SExp
   | .bool b => list [atom "bool", ofBool b]
   | .enum s => list [atom "enum", ofText s]
   | .rule r => list [atom "rule", ofRule r]
-  | .opaque w => list [atom "opaque", atom w]
+  | .other w => list [atom "opaque", atom w]
 
 open Op.PyRepr in
 partial def ofVal : Val → SExp
